@@ -135,6 +135,9 @@ extern int cs_measure(const cs_vna *v, int findex, const cs_c *S, cs_c *M);
 /* amplitude of a point-by-point perturbation of tabulated (vector)
    parameter values; 0 by default */
 extern double cs_vector_wiggle;
+/* tabulated parameters get a grid with the first calibration frequency as
+   an interior point and the other calibration frequencies between points */
+extern int cs_vector_on_cal;
 extern int cs_make_params(vnacal_t *vcp, cs_scenario *sc);
 extern void cs_delete_params(vnacal_t *vcp, cs_scenario *sc);
 
